@@ -76,6 +76,9 @@ def service_cases(tier, inst):
     for ms in P.stream_multisets(inst, K, n, cps=(1, 2), dts=(0, 1)):
         for labels in P.label_schemes(len(ms), 2):
             yield {"streams": ms, "zones": labels}
+    # zero-crossing family: the same lattice translated so that it contains 0.0 and a negative temperature
+    for ms in P.stream_multisets(A.zero_inst(inst), K, 2, cps=(1, 2), dts=(0, 1)):
+        yield {"streams": ms, "zones": ["A"] * len(ms)}
     # tolerance-edge family: two streams whose bounds differ by tiny amounts
     T = A.lattice(inst, 4)
     cpu = inst[2]
@@ -139,7 +142,7 @@ SUBCHECKS = {
     "service": SubCheck(
         name="service",
         describe="pinch_analysis_service: every zone's Direct Integration target at every level of the hierarchy vs the exact cascade of the streams labelled into it",
-        rule="case = multiset of stream types x assignment to <=2 zones (flat and nested labels) + tolerance-edge family; "
+        rule="case = multiset of stream types x assignment to <=2 zones (flat and nested labels) + zero-crossing lattice family + tolerance-edge family; "
              "non-trivial = some zone has overlapping hot and cold streams; outcomes = distinct per-zone target lists",
         cases=service_cases, run=service_run,
         bound=lambda t: "multisets of <=2 streams (K=4) x all label schemes of <=2 zones" if t == "quick" else "multisets of <=3 streams (K=4) x all label schemes of <=2 zones",
